@@ -29,6 +29,15 @@ pub fn families() -> Vec<Family> {
         .steps(2_000_000)
         .tokio(),
         Family::new(
+            "c16_pool_exhausted",
+            "C16",
+            "the runtime's blocking pool (1 or 2 threads, simulated) is full of parked off-reader handlers and one more off-reader request is admitted below the cap, so its handler is queued and cannot start: the reader must go on answering inline requests, and once the parked handlers are released every request gets its one response",
+            c16_pool_exhausted,
+        )
+        .runs(6_000, 360_000)
+        .steps(2_000_000)
+        .tokio(),
+        Family::new(
             "c03_ws_backpressure",
             "C03",
             "WebSocketServer off-reader responses under back-pressure: gated _blocking handlers are released while the bounded outbound queue is full behind a client that is not reading; once the client reads, every request must have exactly one response",
@@ -87,6 +96,90 @@ fn gate_frame(id: u64, tag: u64, notify: bool, path: &str) -> Frame {
 fn echo_frame(id: u64, tag: u64) -> Frame {
     let body = serde_json::to_vec(&json!({"t": tag})).unwrap();
     Frame::new(id, b"/echo", &body).with_formats(1, 2)
+}
+
+fn c16_pool_exhausted(case: &Case) {
+    net::reset(draw_net());
+    let pool = pick(&[1usize, 2]);
+    let cap = pick(&[0usize, 4, 8]);
+    let n_inline = range(1, 4) as u64;
+    let queued = range(1, 2) as u64;
+    case.sample(json!({"blocking_pool_threads": pool, "offreader_cap": cap, "handlers_queued_behind_the_full_pool": queued, "inline_requests_meanwhile": n_inline}));
+    let case = case.clone();
+    aio::run(&case.clone(), 3_600, async move {
+        simkernel::tokio_rt::set_blocking_pool_limit(pool);
+        let gate = Gate::new();
+        let router = gated_router(gate.clone(), false, Arc::new(AtomicU64::new(0)));
+        let listener = WebSocketServer::listen("127.0.0.1:0").await.unwrap();
+        let addr = listener.local_addr().unwrap();
+        let server = WebSocketServer::new(router).with_offreader_limit(cap).on_error(|_| {});
+        let srv = tokio::spawn(async move {
+            let _ = server.serve_listener(listener, "/repe").await;
+        });
+        let ws = match raw_connect(addr, "/repe").await {
+            Ok(ws) => ws,
+            Err(e) => {
+                case.harness_error(format!("handshake failed: {e}"));
+                return;
+            }
+        };
+        let (mut sink, stream) = ws.split();
+        let inbox = Arc::new(Inbox::default());
+        let collector = spawn_collector(stream, inbox.clone());
+        let mut id = 0u64;
+        // fill the pool with parked handlers
+        for t in 1..=pool as u64 {
+            id += 1;
+            let _ = send_frame(&mut sink, &gate_frame(id, t, false, "/gate")).await;
+            let g = gate.clone();
+            if !wait_until(200, || g.has_arrived(t)).await {
+                case.harness_error("a handler did not start although the pool had room");
+                gate.open_all();
+                return;
+            }
+        }
+        // admitted below the cap, but no pool thread is free: these cannot start yet
+        let first_queued = id + 1;
+        for q in 0..queued {
+            id += 1;
+            let _ = send_frame(&mut sink, &gate_frame(id, 100 + q, false, "/gate")).await;
+        }
+        sleep_ms(20).await;
+        case.check(!gate.has_arrived(100), "harness", || "a handler started although the simulated pool was full".into());
+        case.probe("handler_queued_behind_a_full_blocking_pool");
+        // the reader is not part of that queue: inline requests are answered meanwhile
+        for k in 0..n_inline {
+            id += 1;
+            let want = id;
+            let _ = send_frame(&mut sink, &echo_frame(want, 500 + k)).await;
+            let ib = inbox.clone();
+            if !wait_until(2_000, || !ib.responses_for(want).is_empty() || ib.ended()).await || inbox.responses_for(want).is_empty() {
+                case.fail("inline-starved", format!("inline request {k} got no reply within 2 s while an admitted off-reader handler was waiting for a pool thread (connection ended={})", inbox.ended()));
+                gate.open_all();
+                return;
+            }
+        }
+        for q in 0..queued {
+            let rs = inbox.responses_for(first_queued + q);
+            case.check(rs.is_empty(), "wrong-off-reader-response", || format!("a request whose handler could not have started yet was answered with ec={}", rs[0].ec));
+        }
+        // the parked handlers leave: the queued ones get their thread, everybody is answered once
+        gate.open_all();
+        let last = id;
+        let ib = inbox.clone();
+        let all = wait_until(5_000, || (1..=last).all(|i| !ib.responses_for(i).is_empty()) || ib.ended()).await;
+        case.check(all && !inbox.ended(), "no-response-after-release", || format!("after the pool was freed not every request had a response (answered: {:?}, ended={})", (1..=last).filter(|i| !inbox.responses_for(*i).is_empty()).collect::<Vec<_>>(), inbox.ended()));
+        sleep_ms(3).await;
+        for i in 1..=last {
+            let n = inbox.responses_for(i).len();
+            case.check(n <= 1, "duplicate-response", || format!("request {i} got {n} responses"));
+        }
+        check_inbox_clean(&case, "WebSocketServer", &inbox);
+        case.nontrivial();
+        let _ = tokio::time::timeout(std::time::Duration::from_secs(2), futures_util::SinkExt::close(&mut sink)).await;
+        let _ = tokio::time::timeout(std::time::Duration::from_secs(2), collector).await;
+        srv.abort();
+    });
 }
 
 fn c16_ws_offreader(case: &Case) {
